@@ -299,6 +299,17 @@ func main() {
 	r := ev.New("C08", "exploration")
 	r.SetBudget(100*time.Second, 25*time.Minute)
 	debug.SetMaxStack(256 << 20)
+	if !ev.IsWorker() && os.Getenv("VERIF_C08_CHILD") == "" {
+		// isolated children that are killed (hang, stack overflow) cannot
+		// remove their include directories themselves
+		ev.AtExit(func() {
+			if m, err := filepath.Glob("/dev/shm/c08inc-*"); err == nil {
+				for _, d := range m {
+					os.RemoveAll(d)
+				}
+			}
+		})
+	}
 	if r.Thorough() {
 		isolatedBudget = 180 * time.Second
 	}
